@@ -211,4 +211,78 @@ theorem crc32_reads_table_correctly (data : List UInt8) : crc32 data = crc32Spec
 /-- non-vacuity: the standard check value of CRC-32 -/
 example : crc32 [0x31, 0x32, 0x33, 0x34, 0x35, 0x36, 0x37, 0x38, 0x39] = 0xCBF43926 := by decide
 
+/-! ## Part C — what a dynamic detector can and cannot see (why the tie starts every concurrent run cold, and why
+    registering allocators before the threads start is inside the statement) -/
+
+/-- **registration_before_threads.**  A set-up phase on the registering thread before the threads exist — whatever it
+    stores, e.g. `Allocators::register_allocator` writing the registry cells — only changes the initial configuration:
+    afterwards every thread still sees what it sees running alone from that configuration, and no reachable
+    configuration has a conflict.  (The statement excludes registering WHILE the threads run: that would be a thread
+    whose footprint is not inside `libW`.) -/
+theorem registration_before_threads {σ : Type} (T : Nat → Thread Cell σ)
+    (hT : Respects T libR (libW (tableWritable StaticVars.all)))
+    (c : Cfg Cell σ) (setup : Mem Cell → Mem Cell) (sched : List Nat) (i : Nat) :
+    SameView libR (libW (tableWritable StaticVars.all)) i
+        (run T { c with mem := setup c.mem } sched) (runAlone T { c with mem := setup c.mem } i (sched.count i))
+      ∧ ∀ j, i ≠ j → conflictAt T (run T { c with mem := setup c.mem } sched) i j = false :=
+  ⟨(libtins_threads_independent T hT).1 _ sched i, fun j h => (libtins_threads_independent T hT).2 _ sched i j h⟩
+
+/-- non-vacuity: the set-up may write a static cell (a registry), the conclusion is about a non-trivial schedule -/
+example : (fun (m : Mem Cell) => Mem.set m (Cell.static 3) 5) (fun _ => 0) (Cell.static 3) = 5 := by
+  simp [Mem.set]
+
+/-- a thread over a lazily built shared table (flag cell 300, table cell 301, own result cell 1000+i):
+    (pc 0) load the flag; not yet built → pc 1, built → pc 2; (pc 1) store the table and the flag; (pc 2) load the
+    table, store what was read to the own cell; (pc 3) finished -/
+def lazyUser (i : Nat) : Thread Nat Demo where
+  next s := match s.1 with
+    | 0 => some { rd := [300], wr := [], k := fun v => ((if v.headD 0 = 0 then 1 else 2, 0), []) }
+    | 1 => some { rd := [], wr := [301, 300], k := fun _ => ((2, 0), [7, 1]) }
+    | 2 => some { rd := [301], wr := [1000 + i], k := fun v => ((3, v.headD 0), [v.headD 0]) }
+    | _ => none
+
+/-- cold start: two threads whose first calls overlap both find the flag clear and both build the table -/
+theorem lazy_init_cold_race : conflictAt lazyUser (run lazyUser demoInit [0, 1]) 0 1 = true := by decide
+
+/-- invariant of a warm process: table built, nobody is (or will be) in the builder -/
+def Warm (c : Cfg Nat Demo) : Prop := c.mem 300 = 1 ∧ ∀ i, (c.loc i).1 ≠ 1
+
+theorem warm_step (c : Cfg Nat Demo) (h : Warm c) (i : Nat) : Warm (step lazyUser c i) := by
+  obtain ⟨hf, hp⟩ := h
+  have hi := hp i
+  unfold Warm step stepThread lazyUser
+  generalize hs : (c.loc i).1 = pc at hi
+  match pc, hi with
+  | 0, _ => simp [hs, writeAll, hf]; intro j; split <;> simp_all
+  | 2, _ => simp [hs, writeAll, Mem.set, hf]; refine ⟨by omega, ?_⟩; intro j; split <;> simp_all
+  | n + 3, _ => simp [hs, hf]; intro j; split <;> simp_all
+
+theorem warm_run (c : Cfg Nat Demo) (h : Warm c) (sched : List Nat) : Warm (run lazyUser c sched) := by
+  induction sched generalizing c with
+  | nil => exact h
+  | cons i s ih => exact ih _ (warm_step c h i)
+
+theorem warm_no_conflict (c : Cfg Nat Demo) (h : Warm c) (i j : Nat) (hij : i ≠ j) : conflictAt lazyUser c i j = false := by
+  obtain ⟨_, hp⟩ := h
+  have hi := hp i
+  have hj := hp j
+  unfold conflictAt lazyUser
+  generalize ha : (c.loc i).1 = a at hi
+  generalize hb : (c.loc j).1 = b at hj
+  match a, hi, b, hj with
+  | 0, _, 0, _ => simp [ha, hb]
+  | 0, _, 2, _ => simp [ha, hb]; omega
+  | 0, _, n + 3, _ => simp [ha, hb]
+  | 2, _, 0, _ => simp [ha, hb]; omega
+  | 2, _, 2, _ => simp [ha, hb]; omega
+  | 2, _, n + 3, _ => simp [ha, hb]
+  | n + 3, _, _, _ => simp [ha]
+
+/-- **lazy_init_warm_hides_race.**  Once ONE call has completed before the threads start (a sequential reference run, a
+    warm-up packet), no schedule of any number of threads shows a conflict any more: the defect is invisible to every
+    dynamic detector.  This is why every concurrent run of the tie starts in a fresh process. -/
+theorem lazy_init_warm_hides_race (sched : List Nat) (i j : Nat) (hij : i ≠ j) :
+    conflictAt lazyUser (run lazyUser (runAlone lazyUser demoInit 0 3) sched) i j = false :=
+  warm_no_conflict _ (warm_run _ (by unfold Warm; refine ⟨by decide, ?_⟩; intro k; by_cases hk : k = 0 <;> simp [runAlone, run, step, stepThread, lazyUser, demoInit, hk, writeAll]) sched) i j hij
+
 end Tins.Props.C18
